@@ -116,3 +116,9 @@ def run(ctx):
     for arch in ("x86_64", "aarch64"):
         for kind in ("point", "float_slice"):
             ctx.guarded(r, HS.check_hash_terms, arch, kind)
+    # the native evaluators run 12-register tapes, the interpreter's default has 255: the allocator arms that spill
+    # and reload are what a JIT tape exercises and an interpreter tape almost never does
+    from .. import allocproto as AP_
+
+    r = ctx.rule("R6", "register allocation under pressure: every allocator arm pushes its op with the operands in their own positions and follows the load / store / bind protocol (the spill arms are reached by the 12-register native tapes)", 21)
+    ctx.guarded(r, AP_.r4_protocol)
